@@ -13,6 +13,7 @@ import Fir.Model.SimdVertU8
 import Fir.Model.SimdU8x3
 import Fir.Model.SimdVertU16
 import Fir.Model.SimdU8x1
+import Fir.Model.SimdU8x2
 namespace Fir
 
 /-- C02 tolerance between two back-ends: integers identical, f32 a few ulps of a re-associated f64 sum -/
@@ -174,6 +175,22 @@ def handleKernel (fs : List (String × String)) : String :=
                 return some s!"lane model of the SSE4.1 U8 horizontal kernels: pixel ({x},{y}): model={px} got={got[y * dw + x]!}"
           return none
         else none
+      -- two-channel 8-bit images on SSE4.1, horizontal pass: two partial sums per channel joined by a saturating addition
+      let lane2 : Option String :=
+        if p.kind == .u8 ∧ p.n == 2 ∧ ext == "sse4" ∧ pass == "h" ∧ got.size == dw * dh * 2 then Id.run do
+          let q := normalize16 c
+          for y in [0:dh] do
+            let row : List Int := (List.range (sw * 2)).map fun i => src[(offset + y) * sw * 2 + i]!
+            for x in [0:dw] do
+              let (start, ks) := q.chunks.getD x (0, #[])
+              let px := if y < dh - dh % 4 then SimdU8x2.pixelR q.precision row start ks.toList
+                        else SimdU8x2.pixel q.precision row start ks.toList
+              for ch in [0:2] do
+                if px.getD ch 0 ≠ got[(y * dw + x) * 2 + ch]! then
+                  return some s!"lane model of the SSE4.1 U8x2 horizontal kernels: pixel ({x},{y}) channel {ch}: model={px.getD ch 0} got={got[(y * dw + x) * 2 + ch]!}"
+          return none
+        else none
+      let lane1 := match lane1 with | some e => some e | none => lane2
       let lane := match lane, laneV, lane3, laneV16, lane1 with
         | some a, _, _, _, _ => some a
         | none, some b, _, _, _ => some b
